@@ -3,6 +3,7 @@ package checks
 import (
 	"encoding/json"
 	"fmt"
+	"time"
 
 	"verif/mc"
 )
@@ -69,7 +70,8 @@ var wsizesT = []int{0, 1, 2, 3, 100, 4095, 4096, 4097, 8192, 8193, 12289, 16385,
 func c05Run(c *mc.Ctx) {
 	sizes, depth, maxFail := wsizesQ, 4, 3
 	if c.Thorough() {
-		sizes, depth, maxFail = wsizesT, 5, 5
+		// thorough (A): one level deeper with the quick alphabet; (B) below: the larger alphabet at depth 4
+		sizes, depth, maxFail = wsizesQ, 5, 5
 	}
 	c.Sample("history", map[string]interface{}{"writer": "default", "sink_fails_at": 2, "ops": []string{"malloclate(4097)", "writebinary(8193)", "Flush()", "malloc(1)", "Flush()"}})
 	for _, rev := range []bool{false, true} {
@@ -85,6 +87,18 @@ func c05Run(c *mc.Ctx) {
 			}
 			writerBFS(c, "C05", WriterCfg{Kind: "bytes", InitLen: sh.l, InitCap: sh.c, Sizes: sizes, Reverse: rev}, depth)
 		}
+		if c.Thorough() {
+			for k := 0; k <= maxFail; k++ {
+				if c.Mine() {
+					writerBFS(c, "C05", WriterCfg{Kind: "default", FailAt: k, Sizes: wsizesT, Reverse: rev}, 4)
+				}
+			}
+			for _, sh := range initShapes {
+				if c.Mine() {
+					writerBFS(c, "C05", WriterCfg{Kind: "bytes", InitLen: sh.l, InitCap: sh.c, Sizes: wsizesT, Reverse: rev}, 4)
+				}
+			}
+		}
 		// histories that start after 8..12 and 19..21 flush cycles: the size-statistics ring (10 buckets) wraps
 		for _, warm := range []int{8, 9, 10, 11, 12, 19, 20, 21} {
 			if !c.Mine() {
@@ -98,7 +112,7 @@ func c05Run(c *mc.Ctx) {
 
 func init() {
 	Register(&Check{
-		ID: "C05", Level: "model_checking",
+		ID: "C05", Level: "model_checking", Thorough: 45 * time.Minute,
 		Rule: "explicit-state BFS over all histories of Malloc(n) filled immediately, Malloc(n) filled just before the next Flush (forward or reverse order), WriteBinary(n bytes), Malloc(-1), Flush with n from the boundary alphabet, on the real writer; sink failing at write k for every k; bytes writers over nil/empty/partly filled/full initial slices; states keyed by private fields (len,cap,parked buffers,error,stats ring) + sink calls + unflushed region list; every transition compared with the region-list model",
 		Assumptions: []string{
 			"later flushes of one bytes writer: the statement is silent on whether the target accumulates, both readings are accepted",
